@@ -206,6 +206,14 @@ void UncompressedFile::write(const std::shared_ptr<LogContainer> & logContainer)
         ((m_tellp - m_tellg) < m_bufferSize);
     });
 
+    /* close a partly filled log container, so that the appended one continues at the put position */
+    std::shared_ptr<LogContainer> lastLogContainer = logContainerContaining(m_tellp);
+    if (lastLogContainer) {
+        std::streamoff offset = m_tellp - lastLogContainer->filePosition;
+        lastLogContainer->uncompressedFile.resize(offset);
+        lastLogContainer->uncompressedFileSize = offset;
+    }
+
     /* append logContainer */
     m_data.push_back(logContainer);
     logContainer->filePosition = m_tellp;
